@@ -115,6 +115,18 @@ func (r *c08Runner) variant(path []dml.Op, st *dml.State, v *dml.Variant) {
 		return
 	}
 	filesBefore, _ := sys.Files()
+	if v.NeedsHandler != "" {
+		held := false
+		for _, h := range sys.HandlerKeys() {
+			if h == v.NeedsHandler {
+				held = true
+			}
+		}
+		if !held {
+			c.Add("variant_not_failing_in_state", 1)
+			return
+		}
+	}
 
 	res := sys.Do(v.Op)
 	r.logf("  failing: %s -> err=%v log=%q", v.Op.SQL(), res.Err, res.Out)
